@@ -20,6 +20,33 @@ THEOREMS = [
 
 MARGIN = 3
 
+# Long thin frames: the property is quantified over all sizes, and a dimension >= 257 is where integer coordinates stop being
+# CPython's cached small-int objects (an identity comparison `y is frame.height` then differs from `y == frame.height`).  A handful
+# per run, every accessor, coordinates in windows around 0, the small-int cache boundary, the middle and the far boundary.
+LARGE_FRAMES = [(257, 0), (0, 257), (300, 2), (1, 260), (2, 258), (256, 1)]
+LARGE_INNER = [(258, 1), (1, 258), (301, 3), (2, 261)]     # boards; the dual frame is one smaller in both directions
+FULL_AXIS = 40
+
+
+def _fresh(v):
+    """An int equal to v that is a NEW object whenever v lies outside CPython's small-int cache (-5..256): never the same object
+    as `frame.height` / `frame.width` or as a literal of the calling code (what `range`, arithmetic or parsing give a caller)."""
+    return int(str(v))
+
+
+def _axis(n, margin=MARGIN):
+    """The coordinates -margin .. n+margin of one axis; on a long axis only the windows around 0, n/2, 256/257, 512/514 and n."""
+    lo, hi = -margin, n + margin
+    if hi - lo + 1 <= FULL_AXIS:
+        vals = list(range(lo, hi + 1))
+    else:
+        vs = set()
+        for c in (0, n // 2, 256, 257, 512, 514, n):
+            if lo <= c <= hi:
+                vs.update(range(max(lo, c - margin - 1), min(hi, c + margin + 1) + 1))
+        vals = sorted(vs)
+    return [_fresh(v) for v in vals]
+
 
 # ---------------------------------------------------------------------------------------------
 # the real code
@@ -158,13 +185,13 @@ def _oracle_checks(H, W, base, pattern=0):
     from cspuz.grid_frame import BoolGridFrame, BoolInnerGridFrame
     g = Geom(H, W, base)
     s, f = _frame(H, W, base, pattern)
-    for Y in range(-MARGIN, 2 * H + MARGIN + 1):
-        for X in range(-MARGIN, 2 * W + MARGIN + 1):
+    for Y in _axis(2 * H):
+        for X in _axis(2 * W):
             r = _one(lambda: f[Y, X])
             if r != g.getitem(Y, X):
                 yield ("getitem", [Y, X], r, g.getitem(Y, X))
-    for y in range(-MARGIN, H + MARGIN + 1):
-        for x in range(-MARGIN, W + MARGIN + 1):
+    for y in _axis(H):
+        for x in _axis(W):
             e = g.cell(y, x)
             for form, r in (("cell", _many(lambda: f.cell_neighbors(y, x))), ("cell-tuple", _many(lambda: f.cell_neighbors((y, x))))):
                 if r != e:
@@ -190,9 +217,11 @@ def _oracle_checks(H, W, base, pattern=0):
         if gr.num_vertices != (H + 1) * (W + 1) or len(ids) != len(gr.edges):
             yield ("graph-size", [], [gr.num_vertices, len(ids), len(gr.edges)], [(H + 1) * (W + 1), len(g.segs), len(g.segs)])
         r = sorted((i, tuple(sorted(ab))) for i, ab in zip(ids, gr.edges))
-        if r != g.graph_pairs():
-            bad = [x for x in r if x not in g.graph_pairs()] + [x for x in g.graph_pairs() if x not in r]
-            yield ("graph", [], r, g.graph_pairs() if len(r) < 12 else bad[:6])
+        gp = g.graph_pairs()
+        if r != gp:
+            rset, gset = set(r), set(gp)
+            bad = [x for x in r if x not in gset] + [x for x in gp if x not in rset]
+            yield ("graph", [], r if len(r) < 12 else bad[:6], gp if len(r) < 12 else bad[:6])
     except Exception as ex:  # noqa: BLE001
         yield ("graph", [], ["err", core.err_name(ex)], "no exception")
     # dual: the points of the frame are the cells of the dual board; the border between two cells is the
@@ -239,8 +268,8 @@ def _inner_oracle_checks(Hb, Wb, base, pattern=0):
         d = gi.dual()
         if not (isinstance(d, BoolGridFrame) and (d.height, d.width) == (Hb - 1, Wb - 1)):
             yield ("inner-dual-kind", [], [type(d).__name__, d.height, d.width], ["BoolGridFrame", Hb - 1, Wb - 1])
-        for Y in range(-MARGIN, 2 * (Hb - 1) + MARGIN + 1):
-            for X in range(-MARGIN, 2 * (Wb - 1) + MARGIN + 1):
+        for Y in _axis(2 * (Hb - 1)):
+            for X in _axis(2 * (Wb - 1)):
                 # the segment at (Y, X) joins the points (Y//2, X//2) and the next one down / right
                 e = ["err", "IndexError"]
                 if Y % 2 != X % 2:
@@ -250,6 +279,25 @@ def _inner_oracle_checks(Hb, Wb, base, pattern=0):
                 r = _one(lambda: d[Y, X])
                 if r != e:
                     yield ("inner-dual-getitem", [Y, X], r, e)
+        # the dual frame's points are the board cells: the segments at a point / around a cell of the dual frame are borders
+        for y in _axis(Hb - 1):
+            for x in _axis(Wb - 1):
+                e = ["err", "IndexError"]
+                if 0 <= y <= Hb - 1 and 0 <= x <= Wb - 1:
+                    e = [borders[k] for k in (frozenset(((y, x), n)) for n in ((y - 1, x), (y + 1, x), (y, x - 1), (y, x + 1)))
+                         if k in borders]
+                for form, r in (("inner-dual-vertex", _many(lambda: d.vertex_neighbors(y, x))),
+                                ("inner-dual-vertex-tuple", _many(lambda: d.vertex_neighbors((y, x))))):
+                    if r != e:
+                        yield (form, [y, x], r, e)
+                e = ["err", "IndexError"]
+                if 0 <= y < Hb - 1 and 0 <= x < Wb - 1:
+                    e = [borders[frozenset(pq)] for pq in (((y, x), (y, x + 1)), ((y + 1, x), (y + 1, x + 1)),
+                                                           ((y, x), (y + 1, x)), ((y, x + 1), (y + 1, x + 1)))]
+                for form, r in (("inner-dual-cell", _many(lambda: d.cell_neighbors(y, x))),
+                                ("inner-dual-cell-tuple", _many(lambda: d.cell_neighbors((y, x))))):
+                    if r != e:
+                        yield (form, [y, x], r, e)
         dd = d.dual()
         if [dd.height, dd.width, _arr(dd.horizontal), _arr(dd.vertical)] != [Hb, Wb, _arr(gi.horizontal), _arr(gi.vertical)]:
             yield ("inner-dual-dual", [], [dd.height, dd.width], [Hb, Wb])
@@ -273,7 +321,9 @@ def _finding(H, W, base, pattern, op, args, real, expected, inner=False):
 
 def search(ctx, why):
     """Every frame 0x0 .. 3x3 (and every inner frame 1x1 .. 4x4), every coordinate with a margin of 3, two variable
-    offsets: the real accessors against the plain-Python geometry.  One finding per kind of accessor."""
+    offsets; then the long thin frames of LARGE_FRAMES / LARGE_INNER (coordinates: windows around 0, the middle, 256/257 and the
+    far boundary, every one a fresh int object): the real accessors against the plain-Python geometry.  One finding per kind
+    of accessor (the smallest frame showing it)."""
     found = {}
     for base, pattern in ((0, 0), (5, 0b10110)):
         for H in range(0, 4):
@@ -286,6 +336,15 @@ def search(ctx, why):
                 for (op, args, real, expected) in _inner_oracle_checks(H, W, base, pattern):
                     if _sig(op) not in found:
                         found[_sig(op)] = _finding(H, W, base, pattern, op, args, real, expected, inner=True)
+    base, pattern = 3, 0b101
+    for (H, W) in LARGE_FRAMES:
+        for (op, args, real, expected) in _oracle_checks(H, W, base, pattern):
+            if _sig(op) not in found:
+                found[_sig(op)] = _finding(H, W, base, pattern, op, args, real, expected)
+    for (H, W) in LARGE_INNER:
+        for (op, args, real, expected) in _inner_oracle_checks(H, W, base, pattern):
+            if _sig(op) not in found:
+                found[_sig(op)] = _finding(H, W, base, pattern, op, args, real, expected, inner=True)
     return list(found.values())
 
 
@@ -325,7 +384,9 @@ def correspond(ctx):
         "all_edges(), iter(), the two arrays, dual(), dual().dual(), iter(dual()), graph._from_grid_frame; every "
         f"BoolInnerGridFrame(solver, H', W') with 1 <= H', W' <= {maxdim + 1}: arrays, dual() addressed at every coordinate with "
         "margin, dual().dual(), iter(); real variable ids / exception names vs Lean model vs executable Lean spec; a small "
-        "stream of ill-typed calls. Non-trivial+distinct = (H, W, accessor, coordinates) whose result is a variable, a "
+        "stream of ill-typed calls. Long thin frames " + str(LARGE_FRAMES) + " and inner frames " + str(LARGE_INNER) + ": the same "
+        "accessors (plus cell/vertex_neighbors of an inner frame's dual) at coordinates in windows around 0, the middle, 256/257 "
+        "and the far boundary, each coordinate a fresh int object (never the object stored in frame.height/width). Non-trivial+distinct = (H, W, accessor, coordinates) whose result is a variable, a "
         "non-empty list or an exception")
     drv = core.Driver()
     lines = []
@@ -336,36 +397,38 @@ def correspond(ctx):
         lines.extend(ls)
 
     frames = {}
-    for H in range(0, maxdim + 1):
-        for W in range(0, maxdim + 1):
-            base = 0 if rng.random() < 0.34 else rng.randint(1, 9)
-            pattern = rng.randint(0, 255)
-            frames[(H, W)] = (base, pattern)
-            for Y in range(-MARGIN, 2 * H + MARGIN + 1):
-                for X in range(-MARGIN, 2 * W + MARGIN + 1):
-                    add("get", H, W, base, (Y, X), sx(["frame_get", H, W, base, Y, X]), sx(["spec_get", H, W, base, Y, X]))
-            for y in range(-MARGIN, H + MARGIN + 1):
-                for x in range(-MARGIN, W + MARGIN + 1):
-                    add("cell", H, W, base, (y, x), sx(["frame_cell", H, W, base, y, x]), sx(["spec_cell", H, W, base, y, x]))
-                    add("vertex", H, W, base, (y, x), sx(["frame_vertex", H, W, base, y, x]), sx(["spec_vertex", H, W, base, y, x]))
-            add("whole", H, W, base, (), sx(["frame_all", H, W, base]), sx(["frame_dual", H, W, base]),
-                sx(["frame_graph", H, W, base]), sx(["spec_all", H, W, base]))
+    for (H, W) in [(H, W) for H in range(0, maxdim + 1) for W in range(0, maxdim + 1)] + LARGE_FRAMES:
+        base = 0 if rng.random() < 0.34 else rng.randint(1, 9)
+        pattern = rng.randint(0, 255)
+        frames[(H, W)] = (base, pattern)
+        for Y in _axis(2 * H):
+            for X in _axis(2 * W):
+                add("get", H, W, base, (Y, X), sx(["frame_get", H, W, base, Y, X]), sx(["spec_get", H, W, base, Y, X]))
+        for y in _axis(H):
+            for x in _axis(W):
+                add("cell", H, W, base, (y, x), sx(["frame_cell", H, W, base, y, x]), sx(["spec_cell", H, W, base, y, x]))
+                add("vertex", H, W, base, (y, x), sx(["frame_vertex", H, W, base, y, x]), sx(["spec_vertex", H, W, base, y, x]))
+        add("whole", H, W, base, (), sx(["frame_all", H, W, base]), sx(["frame_dual", H, W, base]),
+            sx(["frame_graph", H, W, base]), sx(["spec_all", H, W, base]))
     inners = {}
-    for H in range(1, maxdim + 2):
-        for W in range(1, maxdim + 2):
-            base = 0 if rng.random() < 0.34 else rng.randint(1, 9)
-            pattern = rng.randint(0, 255)
-            inners[(H, W)] = (base, pattern)
-            add("inner", H, W, base, (), sx(["inner_all", H, W, base]))
-            for y in range(H - 1):
-                for x in range(W):
-                    add("inner_h", H, W, base, (y, x), sx(["inner_border", H, W, base, "h", y, x]))
-            for y in range(H):
-                for x in range(W - 1):
-                    add("inner_v", H, W, base, (y, x), sx(["inner_border", H, W, base, "v", y, x]))
-            for Y in range(-MARGIN, 2 * (H - 1) + MARGIN + 1):
-                for X in range(-MARGIN, 2 * (W - 1) + MARGIN + 1):
-                    add("inner_get", H, W, base, (Y, X), sx(["inner_dual_get", H, W, base, Y, X]))
+    for (H, W) in [(H, W) for H in range(1, maxdim + 2) for W in range(1, maxdim + 2)] + LARGE_INNER:
+        base = 0 if rng.random() < 0.34 else rng.randint(1, 9)
+        pattern = rng.randint(0, 255)
+        inners[(H, W)] = (base, pattern)
+        add("inner", H, W, base, (), sx(["inner_all", H, W, base]))
+        for y in range(H - 1):
+            for x in range(W):
+                add("inner_h", H, W, base, (y, x), sx(["inner_border", H, W, base, "h", y, x]))
+        for y in range(H):
+            for x in range(W - 1):
+                add("inner_v", H, W, base, (y, x), sx(["inner_border", H, W, base, "v", y, x]))
+        for Y in _axis(2 * (H - 1)):
+            for X in _axis(2 * (W - 1)):
+                add("inner_get", H, W, base, (Y, X), sx(["inner_dual_get", H, W, base, Y, X]))
+        for y in _axis(H - 1):
+            for x in _axis(W - 1):
+                add("inner_cell", H, W, base, (y, x), sx(["inner_dual_cell", H, W, base, y, x]))
+                add("inner_vertex", H, W, base, (y, x), sx(["inner_dual_vertex", H, W, base, y, x]))
     outs = [core.parse_sx(o) for o in drv.run(lines)]
 
     real_frames = {}
@@ -463,6 +526,19 @@ def correspond(ctx):
             ctx.count("inner-dual-getitem:" + ("var" if not isinstance(r, list) else r[1]))
             ctx.case({"inner": [H, W], "dual_getitem": [Y, X], "real": sx(r)}, ("inner", H, W, "get", Y, X))
             _expect(ctx, "model-vs-code:inner-dual-getitem", H, W, base, ["inner_dual_get", Y, X], r, outs[k], "model")
+        elif tag in ("inner_cell", "inner_vertex"):
+            # cell_neighbors / vertex_neighbors of the frame that dual() of an inner frame returns
+            y, x = args
+            d = gi.dual()
+            fn = d.cell_neighbors if tag == "inner_cell" else d.vertex_neighbors
+            r = _many(lambda: fn(y, x))
+            r2 = _many(lambda: fn((y, x)))
+            ctx.count("inner-dual-" + tag[6:] + ":" + (str(len(r)) + "-edges" if r[:1] != ["err"] else r[1]))
+            ctx.case({"inner": [H, W], "dual_" + tag[6:]: [y, x], "real": sx(r)},
+                     ("inner", H, W, tag, y, x) if (r[:1] == ["err"] or r) else None)
+            if r != r2:
+                ctx.disagree("call-forms-differ:" + tag, H=H, W=W, base=base, args=[y, x], two_ints=sx(r), pair=sx(r2))
+            _expect(ctx, "model-vs-code:inner-dual-" + tag[6:], H, W, base, [tag, y, x], r, outs[k], "model")
 
     # ill-typed calls (outside the model, which takes two integers): the accessor must refuse them, never answer
     s, f = _frame(2, 2, 0)
